@@ -607,6 +607,7 @@ def curated_vocab(isa):
         f("vmulpd", [v("s", cls_pat="ymm"), v("s", cls_pat="ymm"), v("d", cls_pat="ymm")])
         f("vfmadd231pd", [v("s", cls_pat="ymm"), v("s", cls_pat="ymm"), v("sd", cls_pat="ymm")])
         f("vaddsd", [v("s", cls_pat="xmm"), v("s", cls_pat="xmm"), v("d", cls_pat="xmm")])
+        f("movq", [v("s", cls_pat="xmm"), g("d", **w)])  # same mnemonic as the 64-bit register copy, no copy semantics
         f("vxorpd", [v("s", cls_pat="ymm"), v("s", cls_pat="ymm"), v("d", cls_pat="ymm")], zero=True)
         f("vmovapd", [v("s", cls_pat="ymm"), v("d", cls_pat="ymm")])
         f("vmovapd", [{"kind": "mem", "role": "s"}, v("d", cls_pat="ymm")])
@@ -635,6 +636,10 @@ def curated_vocab(isa):
         f("mov", [g("d", **w), g("s", **w)])
         f("cmp", [g("s", **w), g("s", **w)])
         f("add", [g("d", cls_pat="w"), g("s", cls_pat="w"), g("s", cls_pat="w")])
+        # same mnemonic and operand kinds as the 64-bit pointer bump / copy, other entries of the ISA description
+        f("add", [g("d", cls_pat="w"), g("s", cls_pat="w"), i])
+        f("sub", [g("d", cls_pat="w"), g("s", cls_pat="w"), i])
+        f("mov", [g("d", cls_pat="w"), g("s", cls_pat="w")])
         f("fadd", [v("d", cls_pat="d"), v("s", cls_pat="d"), v("s", cls_pat="d")])
         f("fmul", [v("d", cls_pat="d"), v("s", cls_pat="d"), v("s", cls_pat="d")])
         f("fmadd", [v("d", cls_pat="d"), v("s", cls_pat="d"), v("s", cls_pat="d"), v("s", cls_pat="d")])
